@@ -17,6 +17,8 @@ package util
 //@   ensures [C18.merge.caller_context_kept] ctx1 != background() ==> result_0 == ctx1 || uf("ctxparent", result_0) == ctx1
 //@   ensures [C18.merge.background_passthrough] ctx1 == background() ==> result_0 == ctx2
 //@   ensures [C18.merge.cancel_func] result_1 != nil
+//@   ensures [C18.merge.both_live_are_watched+C07.merged_context_follows_the_execution_context+C08.merged_context_follows_the_execution_context+C09.merged_context_follows_the_execution_context] ctx1 != background() && ctx2 != background() ==> uf("ctxparent", result_0) == ctx1 && fresh(payload(result_0)) && spawned() == 1
+//@   ensures [C18.merge.no_watcher_otherwise] (ctx1 == background() || ctx2 == background()) ==> spawned() == 0
 //@   ensures [C18.merge.noop_cancel] (ctx1 == background() || ctx2 == background()) ==> result_1 == fnid("noop")
 //@   modifies nothing
 
